@@ -158,6 +158,18 @@ CHECKS = {
    note="Trusted: TLC, JSON bridge, hook H3. Exact agreement of the transcribed loops with the real plugins is drift only (C14 does not fix which runs are joined).",
    technique="TLA+ spec PathRewrite (IsMerge) + transcribed loops model-checked by TLC; I->S trace validation of hook-recorded paths (Trace_PathRewrite), incl. all TLC-enumerated inputs",
    design="4 C14"),
+ "C09": dict(
+   category="model_checking",
+   text="Split.tla specifies how a token whose word declares >= 2 units is replaced by them (unit k ends at start + key length of the unit in the rewritten text, the last unit inherits "
+        "the parent's end), the refinement relation between a mode-C path and a mode-A/B path (boundaries included, tokens without declared units unchanged, for concatenating declarations "
+        "exactly the declared word ids in order, ranges partitioning the parent, each unit covering its key) and the contract of the on-demand split API. TLC checks it for every mode-C path "
+        "over a dictionary with nested declarations, 1/3/4-byte units and a user layer. Real analyses in modes C/A/B plus split_into on every mode-C token - on that dictionary for texts <= 4 "
+        "(incl. upper-case/full-width spellings) and on generated dictionaries (system->system, user->system, user->user references; headwords of other width than their key), with fresh and "
+        "mode-switched tokenizers - are trace-validated against the same relation.",
+   note="Trusted: TLC, JSON bridge. Only declarations whose units concatenate to the word's key are judged for identity/tiling (the statement's precondition); one declared unit is unspecified. "
+        "Non-concatenating declarations are exercised by C01's recorder (partition of the original text).",
+   technique="TLA+ spec Split (Refines, SplitApiOK) + TLC; I->S trace validation of three-mode analyses and the split API (Trace_Split)",
+   design="4 C09"),
 }
 
 NOT_YET = "no check registered yet in this revision (work in progress; see DESIGN.md section 8 build order)"
